@@ -100,7 +100,7 @@ where
         let query_bins = self
             .bins()
             .iter()
-            .filter(|(id, _)| region_bins[**id])
+            .filter(|(id, _)| region_bins.get(**id).unwrap_or(false))
             .map(|(_, bin)| bin)
             .collect();
 
